@@ -92,6 +92,10 @@ func (s *FrameSet) handleMatch(match []string) error {
 		if mod = match[2]; !isModifier(mod) {
 			return fmt.Errorf("%q is not one of the valid modifier 'xy:'", mod)
 		}
+		// The direction always comes from start/end
+		if chunk < 0 {
+			chunk = -chunk
+		}
 
 		switch mod {
 		case `x`:
@@ -102,7 +106,13 @@ func (s *FrameSet) handleMatch(match []string) error {
 			// This approach will add excessive amounts of singe
 			// range elements. They could be compressed into chunks
 			skip := start
-			aRange := ranges.NewInclusiveRange(start, end, 1)
+			// Handle descending frame ranges, like 10-1y3
+			inc := 1
+			if start > end {
+				inc = -1
+				chunk = -chunk
+			}
+			aRange := ranges.NewInclusiveRange(start, end, inc)
 			var val int
 			for it := aRange.IterValues(); !it.IsDone(); {
 				val = it.Next()
